@@ -288,6 +288,11 @@ class ExtMixin:
         vt = ty_of(v)
         if vt is None or vt == "any":
             return Unknown(deps_of(v), ty="bool")
+        strs = {n for n in names if isinstance(n, str)}
+        if vt == "byteslike" and {"bytes", "bytearray"} <= strs:
+            return Const(True)
+        if vt == "listlike" and {"list", "tuple"} <= strs:
+            return Const(True)
         res = []
         for n in names:
             if isinstance(n, str):
